@@ -7,7 +7,7 @@
 (* finding an existing connection) are taken silently.  A dial that the    *)
 (* specification does not allow (contact not selected by the pass) is      *)
 (* accepted PERMISSIVELY and raises a ghost flag, so that it shows up as   *)
-(* a violated invariant (NoEarlyDial / NoUnexplainedDial) on the real      *)
+(* a violated invariant (NoEarlyDial / NoRemovedDial) on the real          *)
 (* execution instead of a mere mismatch.                                   *)
 (***************************************************************************)
 EXTENDS MCConnMgr, IOUtils
@@ -37,11 +37,12 @@ TTick == IsEvent("tick") /\ IF Eligible(Ev.m) # {} THEN Tick(Ev.m) ELSE Stutter
 TDialBegin ==
     /\ IsEvent("dial.begin")
     /\ IF call[Ev.m][Ev.k].cpc = "sel"
-       THEN Register(Ev.m, Ev.k) /\ call'[Ev.m][Ev.k].cpc = "dial"
-       ELSE \* PERMISSIVE: the code dials a contact the specification did not select
+       THEN RegisterNew(Ev.m, Ev.k)      \* (the object was created some time before the dialer is entered: an inbound connection that
+                                        \*  was registered in between does not make this dial wrong)
+       ELSE \* PERMISSIVE: the code dials a contact that is not in the address book / whose back-off has not expired
             /\ call[Ev.m][Ev.k].cpc = "idle"
-            /\ bad' = bad \cup {IF ~cst[Ev.m][Ev.k].on THEN "removed-contact-dialled"
-                                ELSE IF due[Ev.m][Ev.k] > 0 THEN "dial-before-deadline" ELSE "unexplained-dial"}
+            /\ ~cst[Ev.m][Ev.k].on \/ due[Ev.m][Ev.k] > 0
+            /\ bad' = bad \cup {IF ~cst[Ev.m][Ev.k].on THEN "removed-contact-dialled" ELSE "dial-before-deadline"}
             /\ call' = [call EXCEPT ![Ev.m][Ev.k].cpc = "dial", ![Ev.m][Ev.k].to = Ev.to]
             /\ conns' = [conns EXCEPT ![Ev.m] = @ \cup {[id |-> OutId(Ev.m, Ev.k), dir |-> "o", addr |-> Ev.to,
                              did |-> (IF IsBoot(Ev.k) THEN None ELSE Ev.k), pid |-> "", auth |-> FALSE, str |-> {}, cx |-> FALSE, listed |-> TRUE]}]
@@ -66,14 +67,14 @@ TBackoff ==
        IF "init" \in DOMAIN Ev THEN Stutter
        ELSE IF Ev.op = "backoff"
        THEN /\ CASE pc = "dial" -> DialFail(m, k)
-                 [] pc = "whdr" -> CliHeaders(m, k) /\ call'[m][k].cpc = "idle"
+                 [] pc = "whdr" -> (\E r \in {"error", "proceed"} : CliHeaders(m, k, r)) /\ call'[m][k].cpc = "idle"
                  [] pc = "cauth" -> (CliAuth(m, k, FALSE) \/ CliAuth(m, k, TRUE)) /\ call'[m][k].cpc = "idle"
-                 [] pc = "up" -> CliClose(m, k)
+                 [] pc = "up" -> CliClose(m, k, FALSE)
                  [] OTHER -> FALSE
             \* the value the real BoundedBackoff produced is the one of the specification
             /\ (cst[m][k].on /\ ~call[m][k].det /\ cst'[m][k].val < Inf) => cst'[m][k].val * 5000 = Ev.ms
        ELSE IF Ev.ms >= 1000 /\ Ev.ms < 5000 /\ pc = "up"
-       THEN CliClose(m, k) /\ (cst[m][k].on /\ ~call[m][k].det => cst'[m][k].val = 1)
+       THEN (\E lost \in BOOLEAN : CliClose(m, k, lost)) /\ (cst[m][k].on /\ ~call[m][k].det => cst'[m][k].val = 1)
        ELSE \* Reset(delay) inside Connect, Reset(24h) after ErrUnexpectedNodeDID: already part of Feed / CliHeaders
             /\ \/ Ev.ms = 86400000 /\ (cst[m][k].on => cst[m][k].val = Inf)
                \/ Ev.ms # 86400000 /\ (cst[m][k].on /\ ~call[m][k].det => cst[m][k].val * 5000 = Ev.ms)
@@ -84,7 +85,7 @@ TSrvAccept == IsEvent("srv.accept") /\ \E r \in {"dead", "headers"} : SrvAccept(
 TAuth ==
     /\ IsEvent("auth.begin") \/ IsEvent("auth.end")
     /\ IF Ev.ev = "auth.begin" /\ Ev.side = "out"
-       THEN CliHeaders(Ev.m, Ev.k) /\ call'[Ev.m][Ev.k].cpc = "cauth"
+       THEN CliHeaders(Ev.m, Ev.k, "proceed") /\ call'[Ev.m][Ev.k].cpc = "cauth"
        ELSE Stutter
 
 TObserve ==
@@ -93,7 +94,7 @@ TObserve ==
        CASE Ev.dir = "in" /\ Ev.state = "connected" -> SrvAdmit(m, k, TRUE) /\ call'[m][k].spc = "up"
          [] Ev.dir = "in" /\ Ev.state = "disconnected" -> SrvDown(m, k)
          [] Ev.dir = "out" /\ Ev.state = "connected" ->
-                (IF IsBoot(k) THEN CliHeaders(m, k) ELSE CliAuth(m, k, TRUE)) /\ call'[m][k].cpc = "up"
+                (IF IsBoot(k) THEN CliHeaders(m, k, "proceed") ELSE CliAuth(m, k, TRUE)) /\ call'[m][k].cpc = "up"
          [] OTHER -> CliGone(m, k)
 
 TSrvReturn ==
@@ -112,7 +113,7 @@ TraceNext == TReset \/ TFeed \/ TRemove \/ TAdvance \/ TTick \/ TDialBegin \/ TR
 TraceInit == Init /\ l = 1 /\ TLCSet(1, 1)
 TraceSpec == TraceInit /\ [][TraceNext]_tvars
 
-NoUnexplainedDial == bad \cap {"unexplained-dial", "removed-contact-dialled"} = {}
+NoRemovedDial == "removed-contact-dialled" \notin bad
 
 Progress == TLCSet(1, IF l > TLCGet(1) THEN l ELSE TLCGet(1))
 TraceAccepted ==
